@@ -284,11 +284,13 @@ structure St where
   sets : Nat
   succ : Nat
   flog : List FalseRet
+  /-- ghost: the set() calls that found the flag clear and raised it (a set() on a raised flag adds nothing: the flag is binary) -/
+  raised : Nat
   /-- the order of `set()`: true = lock; store; pthread_cond_signal; unlock — false = lock; store; unlock; pthread_cond_signal -/
   sigFirst : Bool
 
 def init (now spur : Nat) (sigFirst : Bool := false) : St :=
-  ⟨none, false, [], fun _ => .idle, fun _ => none, now, spur, 0, 0, [], sigFirst⟩
+  ⟨none, false, [], fun _ => .idle, fun _ => none, now, spur, 0, 0, [], 0, sigFirst⟩
 
 def goto (s : St) (t : Tid) (p : Pc) : St := { s with pc := upd s.pc t p }
 def done (s : St) (t : Tid) (v : Val) : St := { s with pc := upd s.pc t .idle, ret := upd s.ret t (some v) }
@@ -346,7 +348,8 @@ def step (s : St) (t : Tid) : Act Op → Option St
     -- set(): lock; signaled = true; then unlock; pthread_cond_signal — or (sigFirst) pthread_cond_signal; unlock
     | .setLock =>
       if alt = 0 ∧ s.m = none then
-        some (goto { s with m := some t, flag := true, sets := s.sets + 1, pc := fun u => markSaw (s.pc u) } t
+        let raised' := if s.flag then s.raised else s.raised + 1
+        some (goto { s with m := some t, flag := true, sets := s.sets + 1, raised := raised', pc := fun u => markSaw (s.pc u) } t
           (if s.sigFirst then .setSignal else .setUnlock))
       else none
     | .setUnlock =>
